@@ -1606,7 +1606,17 @@ func (x *kx) binop(f *kframe, t *ssa.BinOp) kval {
 		if an.isConst() {
 			return x.typed(x.and(bn, an.c), t.Type())
 		}
-		kfail("bitwise and of two sample-dependent values")
+		{
+			ka, kb := an.key(), bn.key()
+			if kb < ka {
+				ka, kb = kb, ka
+			}
+			lo, hi := int64(-kInf), int64(kInf)
+			if bits, signed, ok := kIntBits(t.Type()); ok && !signed && bits < 63 {
+				lo, hi = 0, int64(1)<<uint(bits)-1
+			}
+			return knum(x.atom(&katom{kind: "bitop", key: fmt.Sprintf("&(%s;%s)", ka, kb), args: []*knf{an, bn}, lo: lo, hi: hi}))
+		}
 	case token.AND_NOT:
 		if bn.isConst() {
 			return x.typed(x.and(an, ^bn.c), t.Type())
@@ -1624,7 +1634,19 @@ func (x *kx) binop(f *kframe, t *ssa.BinOp) kval {
 		if x.disjointBits(an, bn) || x.disjointBits(bn, an) {
 			return x.typed(an.comb(bn, 1), t.Type())
 		}
-		kfail("bitwise %s of sample-dependent values", t.Op)
+		// not normalisable: an opaque but canonical atom (equal operands give equal atoms); its value
+		// is only known to lie in the result type's range
+		{
+			ka, kb := an.key(), bn.key()
+			if kb < ka {
+				ka, kb = kb, ka
+			}
+			lo, hi := int64(-kInf), int64(kInf)
+			if bits, signed, ok := kIntBits(t.Type()); ok && !signed && bits < 63 {
+				lo, hi = 0, int64(1)<<uint(bits)-1
+			}
+			return knum(x.atom(&katom{kind: "bitop", key: fmt.Sprintf("%s(%s;%s)", t.Op.String(), ka, kb), args: []*knf{an, bn}, lo: lo, hi: hi}))
+		}
 	case token.REM:
 		if an.isConst() && bn.isConst() && bn.c != 0 {
 			return kint(an.c % bn.c)
